@@ -11,7 +11,7 @@ PROFILES_FOR = {
     "C05": ["general", "import", "ttl"],
     "C06": ["contexts", "general", "import"],
     "C07": ["contexts", "import", "general"],
-    "C08": ["ttl", "general"],
+    "C08": ["ttl", "general", "import_gc"],
     "C09": ["ttl", "general"],
     "C20": ["import", "general"],
 }
@@ -78,7 +78,9 @@ def relevant_props(item, trace):
             elif op == "remove":
                 ps |= {"C01"} | ({"C08"} if miss else set())
             elif op in ("gc", "drain"):
-                ps |= ({"C08"} if miss else set()) | ({"C09"} if extra else set())
+                # a frame the policy says is evicted / expired and collected, and that is still there: what the next read
+                # returns is no longer "accepted and not since removed, expired or evicted" (C01)
+                ps |= ({"C08"} if miss else set()) | ({"C09", "C01"} if extra else set())
                 if item.get("value_diff"):
                     ps |= {"C08"}
                 # frames the collector took although nothing the model knows of asked for it: if a head:N frame was
